@@ -1715,7 +1715,7 @@ class MPO(MPSGeometry):
         trunc_weight = options.get('trunc_weight', 1.0, 'real')
         trunc_params = options.subconfig('trunc_params')
         relax_trunc = trunc_params.copy()  # relaxed truncation criteria
-        relax_trunc['chi_max'] *= m_temp
+        relax_trunc['chi_max'] = m_temp * relax_trunc.get('chi_max', 100, int)
         if 'svd_min' in relax_trunc.keys():
             relax_trunc['svd_min'] *= trunc_weight
         trunc_err = TruncationError()
